@@ -191,3 +191,54 @@ _run_c16 = run
 def run(ctx):  # noqa: F811
     _run_c16(ctx)
     r16_2(ctx)
+
+
+# ---------------------------------------------------------------------------------------------------------------- R16.3
+def r16_3(ctx, m):
+    """index typing of the cached Gram matrices of VL-BFGS"""
+    import ast
+    from ..model import src, short, walk_no_nested, call_name
+    I = m.cls("nifty.cl.minimization.descent_minimizers", "_InformationStore")
+    ctx.rule("R16.3", "VL-BFGS information store: an entry M[a, b] of a cached scalar-product matrix named after two vector lists "
+                      "(ss, sy, yy) is written as <first list>[a] . <second list>[b]; only matrices of a list with itself may be "
+                      "written symmetrically - s_i . y_j is not y... s_j . y_i", floor=4)
+    ctx.saw_class(I)
+    n = 0
+    for name, fi in I.methods.items():
+        for st in ast.walk(fi.node):
+            if not (isinstance(st, ast.Assign) and isinstance(st.value, ast.Call) and call_name(st.value) in ("s_vdot", "vdot") and isinstance(st.value.func, ast.Attribute)):
+                continue
+            recv, arg = st.value.func.value, (st.value.args[0] if st.value.args else None)
+
+            def part(e):
+                if isinstance(e, ast.Subscript) and isinstance(e.value, ast.Attribute) and isinstance(e.value.value, ast.Name) and e.value.value.id == "self":
+                    return e.value.attr, src(e.slice).replace(" ", "")
+                return None
+            a, b = part(recv), part(arg) if arg is not None else None
+            if a is None or b is None:
+                continue
+            for t in st.targets:
+                if not (isinstance(t, ast.Subscript) and isinstance(t.value, ast.Attribute) and isinstance(t.value.value, ast.Name) and t.value.value.id == "self"
+                        and isinstance(t.slice, ast.Tuple) and len(t.slice.elts) == 2):
+                    continue
+                M = t.value.attr
+                i1, i2 = [src(x).replace(" ", "") for x in t.slice.elts]
+                n += 1
+                key = f"{fi.key}::self.{M}[{i1}, {i2}] = self.{a[0]}[{a[1]}] . self.{b[0]}[{b[1]}]"
+                named = M == a[0] + b[0]
+                straight = (i1, i2) == (a[1], b[1])
+                mirrored = (i1, i2) == (b[1], a[1]) and a[0] == b[0]
+                ctx.check("R16.3", key, named and (straight or mirrored),
+                          None if named and (straight or mirrored) else
+                          (f"matrix `{M}` does not belong to the lists ({a[0]}, {b[0]})" if not named else
+                           f"entry [{i1}, {i2}] receives {a[0]}[{a[1]}].{b[0]}[{b[1]}]: for two different lists the matrix is not symmetric"), fi, st)
+    if n == 0:
+        ctx.und("R16.3", f"{I.key}::cached scalar products", "no cache stores found", I)
+
+
+_run_c16b = run
+
+
+def run(ctx):  # noqa: F811
+    _run_c16b(ctx)
+    r16_3(ctx, ctx.model)
